@@ -262,7 +262,19 @@ class Result:
                     obligations=len(self.obligations), discharged=sum(o['status'] == 'unsat' for o in self.obligations),
                     failed=[o['name'] for o in self.failed], undecided=[o['name'] for o in self.undecided],
                     query_instances=self.instances, wall_s=round(self.wall_s, 2), solver_ms=round(self.solver_ms, 1),
-                    pre_sat=self.pre_sat, error=self.error)
+                    pre_sat=self.pre_sat, error=self.error,
+                    # what is assumed at the entry of this function / region and not checked here (a caller under contract
+                    # is checked against it; otherwise it is an assumption of the claim), and what the contract promises
+                    contract=dict(case=getattr(self.contract, 'short', None),
+                                  region=getattr(self.contract, 'region', None),
+                                  assumed_preconditions=list(getattr(self.contract, 'requires', []) or []),
+                                  has_world_axioms=bool(getattr(self.contract, 'axioms', None)),
+                                  postconditions=len(getattr(self.contract, 'ensures', []) or []),
+                                  exceptional_postconditions={k: len(v) for k, v in (getattr(self.contract, 'raises', {}) or {}).items()},
+                                  may_raise_without_condition=sorted(getattr(self.contract, 'allow_exc', []) or []),
+                                  loop_invariants={k: len(v.inv) for k, v in (getattr(self.contract, 'loops', {}) or {}).items()},
+                                  callees='through their contracts where one exists (same file), otherwise inlined',
+                                  recursive_through_own_contract=bool(getattr(self.contract, 'recursive', False))))
 
 
 def build_engine(contract, all_contracts, timeout_ms=10000, mutate=None):
